@@ -67,6 +67,35 @@ pub fn any_prefix() -> (Prefix, RefPrefix) {
     }
 }
 
+/// As `any_prefix` but of a family fixed by the caller (a constant), so
+/// that code dispatching on the family is pruned during symbolic execution.
+pub fn any_prefix_of(v4: bool) -> (Prefix, RefPrefix) {
+    let len: u8 = kani::any();
+    if v4 {
+        kani::assume(len <= 32);
+        let a: u32 = kani::any();
+        let lo = a & !host_mask_v4(len);
+        let p = Prefix::new_v4(Ipv4Addr::from(lo), len).unwrap();
+        (p, RefPrefix { v4, len, lo: lo as u128,
+                        hi: (lo | host_mask_v4(len)) as u128 })
+    } else {
+        kani::assume(len <= 128);
+        let a: u128 = kani::any();
+        let lo = a & !host_mask_v6(len);
+        let p = Prefix::new_v6(Ipv6Addr::from(lo), len).unwrap();
+        (p, RefPrefix { v4, len, lo, hi: lo | host_mask_v6(len) })
+    }
+}
+
+pub fn any_maxlen_prefix_of(v4: bool) -> (MaxLenPrefix, RefPrefix, Option<u8>) {
+    let (p, r) = any_prefix_of(v4);
+    let ml: Option<u8> = kani::any();
+    if let Some(m) = ml {
+        kani::assume(m >= r.len && m <= if r.v4 { 32 } else { 128 });
+    }
+    (MaxLenPrefix::new(p, ml).unwrap(), r, ml)
+}
+
 /// An arbitrary valid max-length prefix (None or len <= m <= family max).
 pub fn any_maxlen_prefix() -> (MaxLenPrefix, RefPrefix, Option<u8>) {
     let (p, r) = any_prefix();
